@@ -38,10 +38,10 @@ Proof. exact (fun c i d H => conj (segments_nth c i d H) (segments_length c)). Q
 (* full functional specification: going through the requested abscissae in order, an abscissa whose
    vertical line crosses no edge of the closed polygon is omitted, every other one yields exactly
    (that abscissa, the largest ordinate among all crossings there).
-   Hypothesis: the polygon is not flat (min ordinate < max ordinate). *)
+   Hypothesis: the polygon does not lie flat on the axis (min ordinate < max ordinate, or max ordinate <> 0). *)
 Theorem C17_design_conditions : forall swap coords st,
   let cl := closed_of R swap coords in
-  lmin R Rleb IZR (map snd cl) < lmax R Rleb IZR (map snd cl) ->
+  lmin R Rleb IZR (map snd cl) < lmax R Rleb IZR (map snd cl) \/ lmax R Rleb IZR (map snd cl) <> 0 ->
   dc_rel cl (steps_of R Rplus Rminus Rmult Rdiv Rleb IZR cl st)
             (design_conditions R Rplus Rminus Rmult Rdiv Rleb IZR swap coords st).
 Proof. exact (fun swap coords st => design_conditions_rel (closed_of R swap coords) st). Qed.
@@ -54,7 +54,7 @@ Proof. exact dc_rel_unique. Qed.
    the contour polygon, and carries the largest ordinate among all crossings at that abscissa *)
 Theorem C17_each_condition : forall swap coords st q,
   let cl := closed_of R swap coords in
-  lmin R Rleb IZR (map snd cl) < lmax R Rleb IZR (map snd cl) ->
+  lmin R Rleb IZR (map snd cl) < lmax R Rleb IZR (map snd cl) \/ lmax R Rleb IZR (map snd cl) <> 0 ->
   In q (design_conditions R Rplus Rminus Rmult Rdiv Rleb IZR swap coords st) ->
   In (fst q) (steps_of R Rplus Rminus Rmult Rdiv Rleb IZR cl st) /\ on_polyline cl q /\
   crossing cl (fst q) (snd q) /\ forall y, crossing cl (fst q) y -> y <= snd q.
@@ -65,7 +65,7 @@ Qed.
 (* abscissae that do not cross the contour are omitted, all others are present, order is kept *)
 Theorem C17_omitted_iff_no_crossing : forall swap coords st x,
   let cl := closed_of R swap coords in
-  lmin R Rleb IZR (map snd cl) < lmax R Rleb IZR (map snd cl) ->
+  lmin R Rleb IZR (map snd cl) < lmax R Rleb IZR (map snd cl) \/ lmax R Rleb IZR (map snd cl) <> 0 ->
   In x (steps_of R Rplus Rminus Rmult Rdiv Rleb IZR cl st) ->
   (In x (map fst (design_conditions R Rplus Rminus Rmult Rdiv Rleb IZR swap coords st)) <-> exists y, crossing cl x y).
 Proof.
@@ -73,7 +73,7 @@ Proof.
 Qed.
 Theorem C17_order_kept : forall swap coords st,
   let cl := closed_of R swap coords in
-  lmin R Rleb IZR (map snd cl) < lmax R Rleb IZR (map snd cl) ->
+  lmin R Rleb IZR (map snd cl) < lmax R Rleb IZR (map snd cl) \/ lmax R Rleb IZR (map snd cl) <> 0 ->
   sublist (steps_of R Rplus Rminus Rmult Rdiv Rleb IZR cl st)
           (map fst (design_conditions R Rplus Rminus Rmult Rdiv Rleb IZR swap coords st)).
 Proof.
@@ -105,10 +105,11 @@ Theorem C17_default_abscissae : forall cl m,
   (forall l, steps_of R Rplus Rminus Rmult Rdiv Rleb IZR cl (StepsList l) = l).
 Proof. exact default_abscissae. Qed.
 
-(* the executable instance run against the implementation is the same generic function at Q *)
+(* the executable instance run against the implementation is the same generic function at Q
+   (exact rational arithmetic, every result reduced to lowest terms) *)
 Theorem C17_executable_instance :
-  Qdesign_conditions = design_conditions Q Qplus Qminus Qmult Qdiv Qle_bool inject_Z /\
-  Qintersection = intersection Q Qplus Qminus Qmult Qdiv Qle_bool inject_Z.
+  Qdesign_conditions = design_conditions Q Qadd_r Qsub_r Qmul_r Qdiv_r Qle_bool inject_Z /\
+  Qintersection = intersection Q Qadd_r Qsub_r Qmul_r Qdiv_r Qle_bool inject_Z.
 Proof. split; reflexivity. Qed.
 
 (* non-vacuity: a concrete triangle meets the hypothesis and has a crossing; the Q instance computes
@@ -116,13 +117,13 @@ Proof. split; reflexivity. Qed.
    hits), omits abscissa 5, and the routine returns both hits of a probe through the apex of a wedge *)
 Example C17_nonvacuous :
   (let cl := closed_of R false [(0, 0); (2, 1); (1, 3)] in
-   lmin R Rleb IZR (map snd cl) < lmax R Rleb IZR (map snd cl) /\ crossing cl 1 (1 / 2)) /\
+   (lmin R Rleb IZR (map snd cl) < lmax R Rleb IZR (map snd cl) \/ lmax R Rleb IZR (map snd cl) <> 0) /\ crossing cl 1 (1 / 2)) /\
   map (fun q => (Qred (fst q), Qred (snd q))) (Qdesign_conditions false [(0, 0); (2, 1); (1, 3)]%Q (StepsList [1; 5]%Q)) = [(1, 3 # 1)]%Q /\
   length (Qintersection [(0, 0); (2, 2); (4, 0)]%Q [(2, -1 # 1); (2, 5)]%Q) = 2%nat.
 Proof.
   split; [|split; vm_compute; reflexivity].
   cbv zeta. split.
-  - cbn [closed_of map proj app snd lmin lmax minl maxl fold_left].
+  - left. cbn [closed_of map proj app snd lmin lmax minl maxl fold_left].
     unfold fmin, fmax.
     repeat match goal with
     | |- context [Rleb ?a ?b] =>
